@@ -960,7 +960,11 @@ class Interp:
                 return self.getattr(v, e.attr)
             except AttributeError as ex:
                 # an object of the ANALYSED program lacks the attribute: that is the program's own AttributeError (objects of the
-                # models lacking an attribute are a gap of the analyser and stay an analyser exception)
+                # models lacking an attribute are a gap of the analyser and stay an analyser exception).  A field that the class
+                # DECLARES but that an abstract instance built by a property module does not carry is a stale harness, not a
+                # program error
+                if v.cls.field(e.attr) is not None:
+                    raise Top(f"the abstract {v.cls.name} instance of this rule was built without the declared field {e.attr!r}")
                 raise AbstractRaise(AttributeError(f"'{v.cls.name}' object has no attribute '{e.attr}'"), e, list(self.call_trace))
         return self.getattr(v, e.attr)
 
